@@ -146,6 +146,59 @@ func VerifSQLPassOn(input string, flags int) VerifSQLPass {
 	return p
 }
 
+// VerifSQLPassSeq fingerprints input under each element of flagsSeq in turn on
+// ONE state, the way check() walks through its parsing contexts (reset between
+// passes, nothing else), and records after every pass what VerifSQLPassOn
+// records for a fresh state.
+func VerifSQLPassSeq(input string, flagsSeq []int) []VerifSQLPass {
+	out := make([]VerifSQLPass, 0, len(flagsSeq))
+	s := new(sqliState)
+	sqliInit(s, input, 0)
+	for _, flags := range flagsSeq {
+		var p VerifSQLPass
+		p.Fingerprint = s.sqliFingerprint(flags)
+		p.Verdict = s.lookupWord(sqliLookupFingerprint, s.fingerprint) != byteNull
+		p.Blacklisted = s.blacklist()
+		p.Reparse = s.reparseAsMySQL()
+		for i := 0; i < len(s.fingerprint) && i < len(s.tokenVec); i++ {
+			p.Tokens = append(p.Tokens, verifCopyToken(&s.tokenVec[i], -1, -1))
+		}
+		p.StatsTokens = s.statsTokens
+		p.StatsFolds = s.statsFolds
+		p.StatsCommentDDX = s.statsCommentDDX
+		p.StatsCommentHash = s.statsCommentHash
+		out = append(out, p)
+	}
+	return out
+}
+
+// VerifSQLTokensAfter is VerifSQLTokens on a state that has already been
+// through the passes in prior (as check() would have when it reaches flags).
+func VerifSQLTokensAfter(input string, prior []int, flags int) VerifSQLTrace {
+	var tr VerifSQLTrace
+	s := new(sqliState)
+	sqliInit(s, input, 0)
+	for _, f := range prior {
+		s.sqliFingerprint(f)
+		s.lookupWord(sqliLookupFingerprint, s.fingerprint)
+	}
+	s.reset(flags)
+	limit := len(input) + 2
+	for i := 0; ; i++ {
+		if i >= limit {
+			tr.Capped = true
+			break
+		}
+		before := s.pos
+		if !s.tokenize() {
+			break
+		}
+		tr.Tokens = append(tr.Tokens, verifCopyToken(s.current, before, s.pos))
+	}
+	s.verifStats(&tr)
+	return tr
+}
+
 // VerifSQLBlacklisted asks the real blacklist() whether a fingerprint string
 // is listed (fresh state; nothing else is evaluated).
 func VerifSQLBlacklisted(fingerprint string) bool {
